@@ -5,7 +5,10 @@ Runtime monitoring, five clauses (DESIGN §6 "C09", reference model R2 = vlib/re
 (a) consistency   Electronic_Structure.forward(dm_prop="XL-BOMD", P0 = converged D) against the SCF call on
                   the same geometry: energies, forces, D(P)=P; plain and Krylov (rank 1-4, T_el 300/1500 K);
                   at T_el where the occupations are fractional: force = -d(Etot + E_entropy)/dx by Richardson
-                  central differences at the self-consistent finite-T density.
+                  central differences at the self-consistent finite-T density; away from the fixed point
+                  (P0 = D* + delta) the rank-m Krylov update dP2dt2_m, m = 1..4, against an independent numpy
+                  evaluation of the published rank-m kernel update built from finite-difference responses of the
+                  real D[P] map.
 (b) fixed point   the REAL XL_BOMD/KSA_XL_BOMD one_step/_propagate_P/circular buffer, driven with the
                   electronic-structure call replaced by a stub that returns D* = P(0) and zero force:
                   every k in 3..9 x every start step i0 in 0..k x a context rebuilt at every step_done;
@@ -35,7 +38,8 @@ RULE = ("cases: 'recur' = (variant in {XL_BOMD, KSA_XL_BOMD, XL_BOMD+Langevin}, 
         "real runs at dt, dt/2, dt/4 + BOMD reference at dt/8.  A case is non-trivial when its deciding monitor "
         "compared at least one executed step/call (recur: >= 4 buffer wraps driven; consist: SCF reference converged; "
         "stationary: |F| < 1e-6 reached; dyn: all four trajectories completed; freeenergy = (molecule, T_el, rank): "
-        "finite-T self-consistency reached and occupations fractional by >= 1e-4); distinct by SHA-1 of the case")
+        "finite-T self-consistency reached and occupations fractional by >= 1e-4; krylov = (molecule, method, "
+        "perturbation seed): residual D[P0]-P0 non-zero and all four ranks compared); distinct by SHA-1 of the case")
 ASSUMPTIONS = [
     "float64 CPU, one thread",
     "coefficient table of Niklasson et al. JCP 130, 214109 (2009) typed from recollection in vlib/ref/xlverlet.py and "
@@ -48,12 +52,17 @@ ASSUMPTIONS = [
     "KSA variant: initialize() sets dP2dt2 = 0 for the first step; the reference uses the same W(0) = 0",
     "clause (a) at T_el <= 1500 K is judged against the zero-temperature SCF only when the Fermi occupations are "
     "integral to 1e-12 (electronic entropy term exactly zero); otherwise the call is counted ineligible",
+    "Krylov kernel convention: the package feeds Canon_DM_PRT's response of the single-spin density (trace N_occ) into "
+    "a kernel for the spin-summed density (trace 2 N_occ), i.e. it uses HALF of dD/dP; the independent evaluation "
+    "uses the same factor 1/2 (stated, measured: agreement 5e-11) and reports what the factor 1 would give as an "
+    "observation only",
     "excited-state (CIS) surfaces are not driven by this check",
 ]
 REQUIRED_MONITORS = ["consistency_calls_compared", "fixedpoint_steps_checked", "fixedpoint_restarts_checked",
                      "recurrence_steps_compared", "recurrence_restarts_checked", "real_checkpoint_resumes",
                      "impulse_coefficients_compared", "stability_polynomials_checked", "closed_loop_steps_driven",
-                     "stationary_real_steps", "dyn_families_judged", "free_energy_directions_checked"]
+                     "stationary_real_steps", "dyn_families_judged", "free_energy_directions_checked",
+                     "krylov_updates_compared"]
 CASE_TIMEOUT = 900.0
 ORDERS = (3, 4, 5, 6, 7, 8, 9)
 VARIANTS = ("xl", "ksa", "xl_damp")
@@ -78,6 +87,13 @@ RATIO_LO, RATIO_HI = 2.5, 6.0   # (e) per halving of dt (second order = 4)
 # The entropy contribution this clause is there to see is 0.1-0.5 eV/A.
 FE_H = 4e-3
 TOL_FE = 4e-5
+# (a) Krylov update away from the fixed point.  Independent evaluation = Arnoldi + least squares in numpy on central
+# finite differences (h = 1e-4, unit-norm directions) of the real map P -> D[P]: truncation h^2/6 |D(3)| ~ 1e-8, eigh
+# noise 1e-15/h = 1e-11; measured agreement with the package 2e-12 .. 5e-11 of |f|, f = D[P0]-P0.  The smallest effect
+# looked for (one Krylov direction missing at rank 4) is 7e-4 .. 1e-3 of |f|.
+KQ_H = 1e-4
+TOL_KQ = 1e-6         # |dP2dt2_m - reference_m| / |f|   and   |Krylov_Error_m - reference residual_m|
+KQ_C1 = (0.2, 5.0)    # rank 1: dP2dt2_1 = c1 * f exactly (update along the residual); c1 = 1/(1 - r/2), |r| < 1
 
 
 def gen_cases(tier, seed):
@@ -85,8 +101,8 @@ def gen_cases(tier, seed):
     cases = []
     # ---- (e) dynamics: the expensive ones first
     if tier == "quick":
-        dyn = [("xl", 3, "H2O", 0.4, 6.0, None), ("xl", 6, "H2O", 0.4, 6.0, None), ("xl", 9, "H2O", 0.4, 6.0, None),
-               ("ksa", 6, "H2O", 0.4, 6.0, 3)]
+        dyn = [("xl", 3, "H2O", 0.4, 4.0, None), ("xl", 6, "H2O", 0.4, 4.0, None), ("xl", 9, "H2O", 0.4, 4.0, None),
+               ("ksa", 6, "H2O", 0.4, 4.0, 3)]
     else:
         dyn = []
         for k in ORDERS:
@@ -150,6 +166,15 @@ def gen_cases(tier, seed):
     for name, T_el, rank in fe:
         cases.append({"kind": "freeenergy", "mol": name, "method": "AM1", "T_el": T_el, "rank": rank,
                       "geom_seed": int(g.integers(0, 2**31)), "ndir": 1 if tier == "quick" else 2})
+    # ---- (a) quality of the rank-m Krylov update away from the fixed point
+    if tier == "quick":
+        kq = [("H2O", "AM1"), ("CH2O", "PM3"), ("NH3", "MNDO")]
+    else:
+        kq = [("H2O", "AM1"), ("CH2O", "PM3"), ("NH3", "MNDO"), ("HCN", "AM1"), ("CH4", "PM3"), ("CH3OH", "AM1"),
+              ("C2H4", "MNDO"), ("HF", "PM6_SP"), ("CO2", "AM1"), ("H2S", "PM3"), ("CH3F", "PM6_SP"), ("N2", "MNDO")]
+    for name, method in kq:
+        cases.append({"kind": "krylov", "mol": name, "method": method, "T_el": 300.0,
+                      "geom_seed": int(g.integers(0, 2**31)), "delta": 1e-3})
     # ---- (b)(c)(d) stub-driven, exhaustive: identical in both tiers (the space is finite and is covered)
     for variant in VARIANTS:
         for k in ORDERS:
@@ -160,7 +185,7 @@ def gen_cases(tier, seed):
                 cases.append({"kind": "recur", "variant": variant, "k": k, "seq_seed": int(g.integers(0, 2**31)),
                               "mol": ["NH3", "CH3OH", "H2O"][(k + len(variant)) % 3]})
     # expensive first: dyn, free energy, recur by decreasing k, then the rest
-    cost = {"dyn": 0, "freeenergy": 1, "recur": 2, "stationary": 3, "consist": 4}
+    cost = {"dyn": 0, "freeenergy": 1, "recur": 2, "stationary": 3, "krylov": 4, "consist": 5}
     order = sorted(range(len(cases)), key=lambda i: (cost[cases[i]["kind"]], -cases[i].get("k", 0), i))
     return [cases[i] for i in order]
 
@@ -205,6 +230,7 @@ class _Stub:
         self.n = 0
         self.P = {}       # n -> P(n) as received (numpy, whole batch)
         self.props = []
+        self._dressed = None   # id of the Molecule whose scalar result attributes were already set
 
     def __call__(self, molecule, learned_parameters=None, xl_bomd_params=None, P0=None, dm_prop="SCF", **kw):
         import torch
@@ -217,14 +243,16 @@ class _Stub:
         molecule.dm = torch.as_tensor(np.asarray(D, float)).clone()
         if W is not None:
             molecule.dP2dt2 = torch.as_tensor(np.asarray(W, float)).clone()
-        nm = molecule.coordinates.shape[0]
-        molecule.force = torch.zeros_like(molecule.coordinates.detach())
-        molecule.Etot = torch.zeros(nm)
-        molecule.Hf = torch.zeros(nm)
-        molecule.Eelec = torch.zeros(nm)
-        molecule.Enuc = torch.zeros(nm)
-        molecule.e_gap = torch.zeros(nm)
-        molecule.Electronic_entropy = torch.zeros(nm)
+        if self._dressed != id(molecule):
+            nm = molecule.coordinates.shape[0]
+            molecule.force = torch.zeros_like(molecule.coordinates.detach())
+            molecule.Etot = torch.zeros(nm)
+            molecule.Hf = torch.zeros(nm)
+            molecule.Eelec = torch.zeros(nm)
+            molecule.Enuc = torch.zeros(nm)
+            molecule.e_gap = torch.zeros(nm)
+            molecule.Electronic_entropy = torch.zeros(nm)
+            self._dressed = id(molecule)
         self.n = n + 1
 
 
@@ -323,6 +351,7 @@ class _Harness:
         self.prefix = os.path.join(scratch, "l2_%s_%d" % (self.variant, self.k))
         cur = {"stub": None}
         orig_forward = ESmod.Electronic_Structure.forward
+        orig_atomic = Molecular_Dynamics_Basic.__dict__["_atomic_save_checkpoint"]
 
         def class_forward(es_self, molecule, *a, **kw):
             return cur["stub"](molecule, *a, **kw)
@@ -347,6 +376,9 @@ class _Harness:
                 md.run(mol, nsteps, reuse_P=True, remove_com=None, seed=7)
             base = dict(stub.P)
             resumed = {}
+            # the checkpoint each resume READS is the genuine file written above; the checkpoints a resumed run would
+            # WRITE in turn are never read by anybody, so their serialisation (7 ms each, 2000 of them) is skipped
+            Molecular_Dynamics_Basic._atomic_save_checkpoint = staticmethod(lambda ckpt, path: None)
             for s in sorted(saved):
                 if s >= nsteps:
                     continue
@@ -358,6 +390,7 @@ class _Harness:
                 resumed[s] = dict(st.P)
         finally:
             ESmod.Electronic_Structure.forward = orig_forward
+            Molecular_Dynamics_Basic._atomic_save_checkpoint = orig_atomic
         return base, resumed
 
 
@@ -451,9 +484,10 @@ def _run_recur(case):
         if mg.upd("b_fixed_point", worst / scale_b, TOL_FIX):
             bad("fixed-point", "xl-fixed-point-drift", i0=i0, step=at, deviation=worst)
         for t in range(1, Nb):
-            st2 = H.resume(_supply_const(Dstar, ksa), snaps[t], i0 + t, Nb - t)
-            mon["stub_calls"] += Nb - t
-            w2 = max(float(np.abs(st2.P[n] - Dstar).max()) for n in range(t + 1, Nb + 1))
+            cont = min(Nb - t, m + 2)     # one full wrap after the restart: every slot is read and rewritten
+            st2 = H.resume(_supply_const(Dstar, ksa), snaps[t], i0 + t, cont)
+            mon["stub_calls"] += cont
+            w2 = max(float(np.abs(st2.P[n] - Dstar).max()) for n in range(t + 1, t + cont + 1))
             mon["fixedpoint_restarts_checked"] += 1
             if mg.upd("b_fixed_point_after_restart", w2 / scale_b, TOL_FIX):
                 bad("fixed-point-restart", "xl-fixed-point-drift-after-restart", i0=i0, step_done=i0 + t, deviation=w2)
@@ -461,7 +495,7 @@ def _run_recur(case):
         cells.append("b/L1/%s/k%d/i0=%d" % (variant, k, i0))
 
     # ------------------------------------------------------------------ (c) recurrence, level 1
-    Nc = 5 * m
+    Nc = 4 * m + 2                        # >= 4 wraps of the buffer
     Ds = [_sym(g, nb) for _ in range(Nc + 3 * m + 8)]
     Ws = [_sym(g, nb, 0.3) for _ in range(Nc + 3 * m + 8)]
     # kappa_eff measured as linear response of P(n0+1) to D(n0) [W(n0)]
@@ -496,10 +530,11 @@ def _run_recur(case):
                 n for n in range(1, Nc + 1) if np.abs(stub.P[n] - ref[n]).max() / pmax > TOL_REC),
                 worst_step=at, deviation=worst, wraps_at_worst=at // m, kappa_eff=kappa_eff)
         for t in range(1, Nc):
-            st2 = H.resume(_supply_seq(Ds, Ws, ksa), snaps[t], i0 + t, Nc - t)
-            mon["stub_calls"] += Nc - t
-            w2 = max(float(np.abs(st2.P[n] - stub.P[n]).max()) for n in range(t + 1, Nc + 1))
-            w3 = max(float(np.abs(st2.P[n] - ref[n]).max()) for n in range(t + 1, Nc + 1))
+            cont = min(Nc - t, m + 2)
+            st2 = H.resume(_supply_seq(Ds, Ws, ksa), snaps[t], i0 + t, cont)
+            mon["stub_calls"] += cont
+            w2 = max(float(np.abs(st2.P[n] - stub.P[n]).max()) for n in range(t + 1, t + cont + 1))
+            w3 = max(float(np.abs(st2.P[n] - ref[n]).max()) for n in range(t + 1, t + cont + 1))
             mon["recurrence_restarts_checked"] += 1
             if mg.upd("c_restart_vs_uninterrupted", w2 / pmax, TOL_REC) or \
                     mg.upd("c_restart_vs_published", w3 / pmax, TOL_REC):
@@ -546,7 +581,7 @@ def _run_recur(case):
 
     # ------------------------------------------------------------------ (b)+(c) level 2: real run + real checkpoints
     with env.Scratch("c09") as scratch:
-        for tag, supply, N in (("b", _supply_const(Dstar, ksa), 4 * m), ("c", _supply_seq(Ds, Ws, ksa), 5 * m)):
+        for tag, supply, N in (("b", _supply_const(Dstar, ksa), 4 * m), ("c", _supply_seq(Ds, Ws, ksa), Nc)):
             basep, resumed = H.real_run_with_resumes(supply, N, scratch)
             if tag == "b":
                 ref = {n: Dstar for n in range(1, N + 1)}
@@ -869,6 +904,126 @@ def _run_freeenergy(case):
             "cells": ["a/free-energy/%s/rank%d" % (case["method"], case["rank"])], "obs": obs}
 
 
+def _run_krylov(case):
+    """clause (a), quality of the Krylov-subspace update away from the fixed point.
+
+    P0 = D* + delta (delta symmetric, |delta|_F = 1e-3, on valid AO positions), f = D[P0] - P0 from the real call.
+    Reference = the published rank-m kernel update (Niklasson, JCTC 16, 3628 (2020), alg. 3) evaluated in numpy:
+    v_0 = f/|f|; w_k = R v_k - v_k; v_{k+1} = w_k orthogonalised against v_0..v_k and normalised;
+    alpha = argmin |W alpha - f|; update = -V alpha; with R v = (1/2) (D[P0 + h v] - D[P0 - h v]) / (2h) taken from
+    the REAL map P -> D[P].  The factor 1/2 is the package's convention (see ASSUMPTIONS), used on purpose."""
+    import torch
+    from vlib import run
+    Z, X, q, mult = gen.molecule(case["mol"])
+    g = np.random.default_rng(case["geom_seed"])
+    X = gen.distort(X, g, sigma=0.05)
+    X = X @ gen.generic_rotation(X, g).T
+    sett = run.settings(case["method"], eps=1e-11, converger=(2,))
+    with run.quiet():
+        mol, es, _ = run.build(Z, X, sett)
+        es(mol)
+    if es.notconverged is not None and bool(torch.as_tensor(es.notconverged).any()):
+        return {"ineligible": "reference SCF not converged"}
+    Dstar = mol.dm.detach().numpy()[0].copy()
+    nb = Dstar.shape[0]
+    valid = np.zeros(nb, bool)
+    for a, z in enumerate(Z):
+        valid[4 * a:4 * a + (4 if z > 1 else 1)] = True
+    A = g.normal(size=(nb, nb))
+    A = 0.5 * (A + A.T) * np.outer(valid, valid)
+    delta = A / np.linalg.norm(A) * float(case["delta"])
+    P0 = Dstar + delta
+    ncalls = [0]
+
+    def call(P, rank):
+        with run.quiet():
+            es(mol, P0=torch.as_tensor(P[None]).clone(), dm_prop="XL-BOMD",
+               xl_bomd_params={"k": 6, "max_rank": int(rank), "err_threshold": 0.0, "T_el": float(case["T_el"])})
+        ncalls[0] += 1
+        return (mol.dm.detach().numpy()[0].copy(), mol.dP2dt2.detach().numpy()[0].copy(),
+                float(torch.as_tensor(mol.Krylov_Error).reshape(-1)[0]))
+
+    real = {r: call(P0, r) for r in (1, 2, 3, 4)}
+    D0 = real[1][0]
+    f = D0 - P0
+    fn = float(np.linalg.norm(f))
+    if not fn > 1e-6:
+        return {"ineligible": "residual D[P0]-P0 vanishes (%.1e): nothing to precondition" % fn}
+
+    def resp(v):
+        return (call(P0 + KQ_H * v, 1)[0] - call(P0 - KQ_H * v, 1)[0]) / (2.0 * KQ_H)
+
+    def kernel_updates(scale):
+        """rank-1..4 updates and residuals of the published algorithm with response = scale * dD/dP"""
+        V, Rv, out, dW = [], [], {}, f.copy()
+        for k in range(4):
+            v = dW.copy()
+            for vj in V:
+                v = v - float(np.sum(v * vj)) * vj
+            v = v / np.linalg.norm(v)
+            V.append(v)
+            Rv.append(resp(v))
+            dW = scale * Rv[-1] - v
+            Vm = np.stack([x.ravel() for x in V], 1)
+            Wm = np.stack([(scale * r - x).ravel() for r, x in zip(Rv, V)], 1)
+            al = np.linalg.lstsq(Wm, f.ravel(), rcond=None)[0]
+            out[k + 1] = (-(Vm @ al).reshape(nb, nb), float(np.linalg.norm(Wm @ al - f.ravel()) / fn))
+        return out
+
+    ref = kernel_updates(0.5)        # the package's convention: half of the spin-summed response
+    ref_full = kernel_updates(1.0)   # what the full response would deliver: observation only
+    dn = float(np.linalg.norm(delta))
+    mg, viol = _Margins(), []
+    obs = {"mol": case["mol"], "method": case["method"], "|delta|": dn, "|f|": fn, "ranks": {}}
+    witness = {"mol": case["mol"], "method": case["method"], "T_el": case["T_el"], "coords": X.tolist(),
+               "delta_seed": case["geom_seed"]}
+    ncmp, prev_err = 0, None
+    for r in (1, 2, 3, 4):
+        _, u, kerr = real[r]
+        if not np.all(np.isfinite(u)):
+            viol.append({"clause": "krylov-update-not-finite", "mech": "ksa-update-not-finite",
+                         "detail": dict(witness, rank=r)})
+            continue
+        du = float(np.linalg.norm(u - ref[r][0]) / fn)
+        de = abs(kerr - ref[r][1])
+        ncmp += 1
+        to_prev = float(np.linalg.norm(u - (ref[r - 1][0] if r > 1 else 0.0)) / fn)
+        obs["ranks"][r] = {"|u-ref|/|f|": du, "Krylov_Error": kerr, "ref_residual": ref[r][1],
+                           "e_m/|delta|": float(np.linalg.norm(P0 + u - Dstar) / dn),
+                           "e_m/|delta|_if_full_response_were_used": float(np.linalg.norm(P0 + ref_full[r][0] - Dstar) / dn),
+                           "|u_m-ref_(m-1)|/|f|": to_prev}
+        if mg.upd("a_krylov_update_vs_independent_kernel", du, TOL_KQ):
+            viol.append({"clause": "krylov-update-rank%d" % r, "mech": "ksa-update-differs-from-rank-m-kernel",
+                         "detail": dict(witness, rank=r, rel_deviation=du,
+                                        rel_distance_to_rank_m_minus_1_reference=to_prev,
+                                        norm_update_over_norm_f=float(np.linalg.norm(u) / fn))})
+        if mg.upd("a_krylov_reported_error_vs_independent", de, TOL_KQ):
+            viol.append({"clause": "krylov-reported-error-rank%d" % r, "mech": "ksa-reported-kernel-error-differs",
+                         "detail": dict(witness, rank=r, reported=kerr, independent=ref[r][1])})
+        if prev_err is not None:  # least-squares residual over nested subspaces cannot increase
+            if mg.upd("a_krylov_error_monotone", max(0.0, kerr - prev_err), 1e-9):
+                viol.append({"clause": "krylov-error-monotone", "mech": "ksa-kernel-residual-not-monotone",
+                             "detail": dict(witness, rank=r, error=kerr, previous=prev_err)})
+        prev_err = kerr
+    # rank 1: the update is along the residual itself, dP2dt2_1 = c1 f, c1 = 1/(1 - r/2) for |r| < 1
+    u1 = real[1][1]
+    if np.all(np.isfinite(u1)):
+        c1 = float(np.sum(u1 * f) / (fn * fn))
+        par = float(np.linalg.norm(u1 - c1 * f) / fn)
+        obs["rank1_c1"] = c1
+        mg.upd("a_krylov_rank1_gain_low", KQ_C1[0], max(c1, 1e-300))
+        mg.upd("a_krylov_rank1_gain_high", c1, KQ_C1[1])
+        mg.upd("a_krylov_rank1_parallel_to_residual", par, 1e-9)
+        if not (KQ_C1[0] <= c1 <= KQ_C1[1]) or par > 1e-9:
+            viol.append({"clause": "krylov-rank1-gain", "mech": "ksa-rank1-update-degenerate",
+                         "detail": dict(witness, c1=c1, non_parallel_part=par,
+                                        note="c1 = 0 means the auxiliary density is decoupled from D")})
+    obs["xl_calls"] = ncalls[0]
+    return {"nontrivial": ncmp > 0, "violations": viol, "margins": mg.m,
+            "monitors": {"krylov_updates_compared": ncmp, "krylov_fd_responses": 8, "krylov_xl_calls": ncalls[0]},
+            "cells": ["a/krylov-quality/%s/rank%d" % (case["method"], r) for r in obs["ranks"]], "obs": obs}
+
+
 # =====================================================================================================
 # real MD helpers (stationary, dyn)
 # =====================================================================================================
@@ -1082,6 +1237,8 @@ def run_case(case):
         return _run_dyn(case)
     if kind == "freeenergy":
         return _run_freeenergy(case)
+    if kind == "krylov":
+        return _run_krylov(case)
     raise ValueError("unknown case kind %r" % kind)
 
 
@@ -1110,7 +1267,7 @@ def summarize(cases, results, report):
             missing.append("%s/k%d: impulse phases" % (v, k))
         if sorted(lat["b_L2_resumes"]) != list(range(1, 4 * m)):
             missing.append("%s/k%d: (b) real resumes" % (v, k))
-        if sorted(lat["c_L2_resumes"]) != list(range(1, 5 * m)):
+        if sorted(lat["c_L2_resumes"]) != list(range(1, 4 * m + 2)):
             missing.append("%s/k%d: (c) real resumes" % (v, k))
         tot["start_phases_b"] += len(lat["b_L1"])
         tot["start_phases_c"] += len(lat["c_L1"])
@@ -1125,8 +1282,8 @@ def summarize(cases, results, report):
         "exhaustive": bool(complete),
         "space": {"k": list(ORDERS), "variants": list(VARIANTS),
                   "start_step_i0": "every i0 in 0..k", "restart_step_done": "every step_done in 1..N-1 "
-                  "(N = 4(k+1) for (b), 5(k+1) for (c)), through a rebuilt context and through the real "
-                  "save_checkpoint/run_from_checkpoint files",
+                  "(N = 4(k+1) for (b), 4(k+1)+2 for (c)), through a rebuilt context (continued for one full wrap "
+                  "+ 2 steps) and through the real save_checkpoint/run_from_checkpoint files (continued to the end)",
                   "impulse_phase": "every n0 in 1..2(k+1) (each buffer phase before and after a wrap)",
                   "gamma_grid": "200 points i/200, i=1..200, plus 1e-3, 1e-4 in the closed loop"},
         "cells_expected": len(want_pairs), "cells_completed": len(seen), "totals": tot,
